@@ -34,7 +34,9 @@ type C08Case struct {
 const c08Rule = "accepted generated packages whose type, field, step, enum-symbol, union-tag, dimension and namespace names are drawn from target-language reserved words and generated-helper names in every legal casing (class, int, namespace, None, match, end, function, self, value, schema, copyTo, T_NP...), with near-colliding pairs under snake/Pascal conversion (fooBar/fooBAR...), hostile documentation comments (*/, triple quotes, trailing backslash, %, non-ASCII) x generated option sets (any subset of cpp/python/matlab/json; generateNDJson, generateHDF5, generateCMakeLists, overrideArrayHeader) and the scaffold written by `yardl init <name>` for generated names. oracle: validate exits 0 => generate exits 0 without panic; every generated .py byte-compiles and the package imports; generated C++ passes g++ -std=c++17 -fsyntax-only (when the array header is overridden, HDF5 sources excluded); no duplicate attribute in a generated Python class; no case-insensitive duplicate among generated MATLAB files. non-trivial = at least one hostile identifier/comment or a non-default option; distinct = hash of model + options"
 
 var hostileTypeNames = []string{"Class", "Int", "Namespace", "None", "Match", "End", "Function", "Std", "Yardl", "Import", "Self", "Type", "Union", "Record", "Protocol", "Vector", "Array", "Map", "Optional", "String", "Bool", "Double", "Float", "Long", "Size", "Date", "Time", "DateTime", "Any", "Object", "List", "Dict", "Binary", "NDJson", "Version", "Struct", "Template", "Typename", "Auto", "Delete", "New", "This", "Operator", "Enum", "Const", "Static", "Value", "Values", "Stream", "Schema", "Int32", "Float32", "Exception", "True", "False", "Null", "Def", "Lambda", "Return", "Global", "Numpy", "Np", "Abc", "Typing", "Datetime", "Complex", "Main", "Error", "Properties", "Methods", "Classdef", "Cell", "Table", "Handle"}
-var hostileMemberNames = []string{"class", "int", "namespace", "none", "match", "end", "function", "self", "type", "def", "import", "from", "lambda", "return", "struct", "template", "typename", "auto", "register", "delete", "new", "this", "operator", "union", "enum", "const", "static", "value", "values", "stream", "schema", "close", "copyTo", "flush", "read", "write", "index", "tag", "hasValue", "int32", "float32", "size", "string", "date", "time", "bool", "double", "float", "long", "true", "false", "null", "and", "or", "not", "is", "in", "if", "else", "for", "while", "try", "except", "with", "as", "pass", "yield", "async", "await", "global", "del", "assert", "break", "continue", "switch", "case", "default", "do", "goto", "inline", "virtual", "friend", "private", "public", "protected", "volatile", "signed", "unsigned", "short", "char", "void", "extern", "typedef", "sizeof", "alignas", "constexpr", "noexcept", "nullptr", "std", "yardl", "np", "numpy", "dtype", "properties", "methods", "classdef", "obj", "varargin", "nargin", "isa", "numel", "zeros", "ones", "cell", "disp", "error", "otherwise", "elseif", "parfor", "persistent", "other", "res", "item", "state", "version"}
+var hostileMemberNames = []string{"class", "int", "namespace", "none", "match", "end", "function", "self", "type", "def", "import", "from", "lambda", "return", "struct", "template", "typename", "auto", "register", "delete", "new", "this", "operator", "union", "enum", "const", "static", "value", "values", "stream", "schema", "close", "copyTo", "flush", "read", "write", "index", "tag", "hasValue", "int32", "float32", "size", "string", "date", "time", "bool", "double", "float", "long", "true", "false", "null", "and", "or", "not", "is", "in", "if", "else", "for", "while", "try", "except", "with", "as", "pass", "yield", "async", "await", "global", "del", "assert", "break", "continue", "switch", "case", "default", "do", "goto", "inline", "virtual", "friend", "private", "public", "protected", "volatile", "signed", "unsigned", "short", "char", "void", "extern", "typedef", "sizeof", "alignas", "constexpr", "noexcept", "nullptr", "std", "yardl", "np", "numpy", "dtype", "properties", "methods", "classdef", "obj", "varargin", "nargin", "isa", "numel", "zeros", "ones", "cell", "disp", "error", "otherwise", "elseif", "parfor", "persistent", "other", "res", "item", "state", "version",
+	// camelCase names whose snake_case form is a multi-word C++ keyword or alternative token
+	"notEq", "andEq", "orEq", "xorEq", "constCast", "staticCast", "dynamicCast", "reinterpretCast", "staticAssert", "threadLocal", "wcharT", "char16T", "char32T", "coAwait", "coReturn", "coYield", "bitAnd", "bitOr"}
 var collidingPairs = [][2]string{{"fooBar", "fooBAR"}, {"x1y", "x1Y"}, {"ioReader", "iOReader"}, {"myM1", "myM_1x"}, {"aB", "ab"}}
 var hostileComments = []string{"ends a C comment */ here", "triple \"\"\" quote", "backslash at end \\", "percent %d %s", "non-ASCII é 日本 😀", "% matlab comment", "\"quoted\" 'single'", "<html> & entity", "#include <x>", "{brace} [bracket]"}
 
@@ -185,6 +187,8 @@ var (
 var c08ContextPairs = map[string]string{
 	// the generated writer/reader class gets methods WriteUnion/ReadUnion, which hide the file-local
 	// WriteUnion<...>/ReadUnion<...> serializer templates used by any union-typed step of that protocol
+	// a !flags type is a C++ class with a method Value(); named `Value` that is its constructor
+	"type:Value": "generated C++ does not compile as C++17 when the type is a !flags: | yardl/detail/binary/serializers.h: error: invalid use of 'Value::Value'",
 	"step:union": "generated C++ does not compile as C++17 when the protocol also has a union-typed step: | binary/protocols.cc: error: parse error in template argument list",
 }
 
